@@ -46,7 +46,7 @@ PROPS = {
     "C14": dict(units=["u1_estimator"], kani=["bbloom", "sketch"], replay=["estimator"]),
     "C20": dict(units=["u1_estimator", "u8_builder", "u7_glue", "u19_async", "u8_builder_async", "u6_store", "u4_policy", "u19_async_policy", "u5_ttl", "u9_metrics"], kani=["bbloom", "ttl", "sketch"], replay=["estimator", "cache", "async_cache"], probes=[("cache", "huge_cost_update_keeps_the_worker_alive")],
                 guards=[("cache", "extreme_configurations_work"), ("async_cache", "async_extreme_configurations_work")]),
-    "C02": dict(units=["u6_store", "u7_glue", "u19_async", "u8_builder", "u8_builder_async", "u10_valueref"], kani=["keys"], replay=["ttl", "async_sweep", "cache", "async_cache"]),
+    "C02": dict(units=["u6_store", "u7_glue", "u19_async", "u8_builder", "u8_builder_async", "u10_valueref"], kani=["keys", "ttl"], replay=["ttl", "async_sweep", "cache", "async_cache"]),
     "C03": dict(units=["u6_store", "u7_glue", "u19_async", "u10_valueref"], kani=["ttl"], replay=["ttl", "async_sweep"]),
     "C04": dict(units=["u6_store", "u4_policy", "u7_glue", "u19_async", "u19_async_policy", "u8_builder", "u8_builder_async"], kani=["ttl", "keys"], replay=["ttl", "async_sweep", "policy", "cache", "async_cache"]),
     "C05": dict(units=["u6_store", "u4_policy", "u8_builder", "u19_async_policy", "u8_builder_async"], kani=["ttl"], replay=["ttl", "async_sweep", "cache"]),
@@ -81,6 +81,9 @@ IMPLIES = {
     # C05 -> C08: an expired entry that is never reclaimed is a value that is neither served nor handed to a callback; every clause
     # that reclamation rests on (bucket numbering, listings, the sweeps) therefore also serves "resident xor exactly one callback".
     "C05": ("C08",),
+    # C03 -> C02: "a lookup returns the latest value until it is removed, expires or is evicted" - a clause that pins down WHEN an
+    # entry counts as expired also decides whether a lookup of a live entry finds it.
+    "C03": ("C02",),
 }
 
 # The safety obligation of a function under contract (no arithmetic overflow, no index out of bounds, no failed callee precondition,
